@@ -41,6 +41,10 @@ MULTI7 = (
     ("chain", ("E",)),
     ("chain", ("E1",)),
     ("chain", ("E", ("xfer", "e1"))),
+    ("chain", ("E",), True),
+    ("chain", ("E1",), True),
+    ("chain", ("D1",), True),
+    ("chain", ("DS",), True),
     ("chain", ("L2",)),
     ("join", ("K",), None, False),
     ("join", ("K",), spaces.P_D_GT_A, True),
@@ -58,6 +62,28 @@ def fingerprint(rel):
         (type(n).__name__, str(n), None if not isinstance(n, MarkerRelation) or n.payload is None else id(n.payload))
         for n in walk.spine_walk(rel)
     ]
+
+
+def reachable_materializations(rel):
+    """Materializations that Processor.process must reach: not shielded by a node that already holds a
+    payload, not below a statically trivial transfer or materialization (those get a canned payload and
+    their upstream is deliberately left alone)."""
+    out = []
+
+    def w(n, shielded):
+        if shielded:
+            return
+        if isinstance(n, Materialization):
+            out.append(n)
+            w(n.target, n.payload is not None or n.is_trivial)
+        elif isinstance(n, Transfer):
+            w(n.target, n.payload is not None or n.is_trivial)
+        else:
+            for c in walk.children(n)[:1] if isinstance(n, MarkerRelation) else walk.children(n):
+                w(c, n.payload is not None)
+
+    w(rel, False)
+    return out
 
 
 def materializations(rel):
@@ -114,6 +140,14 @@ class C07(Check):
                     tr.violation("materialization-recomputed", f"{kind} hook ran for materialization {name!r} which already held a payload (call #{call + 1})")
                     return True
             had_payload = {id(m) for m in materializations(rel) if m.payload is not None}
+            # "its materialization nodes gain payloads": every materialization that processing reaches
+            for m in reachable_materializations(rel):
+                if m.payload is None:
+                    tr.violation(
+                        "materialization-without-payload",
+                        f"after process() call #{call + 1} materialization {m.name!r} of the input tree still has no payload",
+                    )
+                    return True
             if out.columns != rel.columns or out.engine != rel.engine:
                 tr.violation("result-columns-or-engine", f"processed tree has columns {set(out.columns)} / engine {out.engine}, input {set(rel.columns)} / {rel.engine}")
                 return True
